@@ -29,6 +29,13 @@ pub broadcast axiom fn axiom_pat_str(p: &str)
 pub broadcast axiom fn axiom_pat_char_not_str(c: char)
     ensures #[trigger] pat_is_str::<char>(c) == false;
 
+// [char; N] patterns ("any of these characters")
+pub uninterp spec fn pat_is_chars<P>(p: P) -> bool;
+pub uninterp spec fn pat_chars<P>(p: P) -> Seq<char>;
+pub broadcast axiom fn axiom_pat_chars<const N: usize>(a: [char; N])
+    ensures #![trigger pat_is_chars::<[char; N]>(a)] #![trigger pat_chars::<[char; N]>(a)]
+            pat_is_chars::<[char; N]>(a) && pat_chars::<[char; N]>(a) == a@ && !pat_is_char::<[char; N]>(a) && !pat_is_str::<[char; N]>(a);
+
 pub open spec fn has_prefix(s: Seq<char>, p: Seq<char>) -> bool {
     p.len() <= s.len() && s.subrange(0, p.len() as int) == p
 }
@@ -42,7 +49,8 @@ pub open spec fn has_infix(s: Seq<char>, p: Seq<char>) -> bool {
 pub assume_specification<P: Pattern>[ str::starts_with::<P> ](s: &str, pat: P) -> (r: bool)
     ensures
         pat_is_str(pat) ==> r == has_prefix(s@, pat_str(pat)),
-        pat_is_char(pat) ==> r == (s@.len() > 0 && s@[0] == pat_char(pat));
+        pat_is_char(pat) ==> r == (s@.len() > 0 && s@[0] == pat_char(pat)),
+        pat_is_chars(pat) ==> r == (s@.len() > 0 && pat_chars(pat).contains(s@[0]));
 
 pub assume_specification<P: Pattern>[ str::ends_with::<P> ](s: &str, pat: P) -> (r: bool)
     where for<'a> P::Searcher<'a>: std::str::pattern::ReverseSearcher<'a>
